@@ -157,6 +157,11 @@ def call_ext(I: Any, name: str, args: List[Term], kwargs: Dict[str, Term], st: A
     if name in EXC_NAMES or (name.startswith("builtins.") and name.split(".")[1] in __import__("sa.interp", fromlist=["EXC_PARENTS"]).EXC_PARENTS):
         return ("exc", name.split("builtins.")[-1], tuple(args), where, None)
 
+    if name == "types.MappingProxyType" and len(args) == 1 and not kwargs:
+        return args[0]          # a read-only view of the same mapping (this model never writes through it)
+    if name == "builtins.object.__new__" and len(args) == 1 and not kwargs and args[0][0] == "class":
+        from .interp import HeapObj
+        return st.alloc(HeapObj("obj", args[0][1], {}, [], False, "", True))
     if name == "binascii.hexlify":
         return hexlify(I, args[0], st, ctx, node)
     if name == "binascii.unhexlify" or name == "builtins.bytes.fromhex":
